@@ -68,6 +68,12 @@ struct Config {
     i64 quantum_max_ns = 2000;
     double stall_p = 0.0;     // per decision point probability of a thread stall fault
     i64 stall_max_ns = 50 * 1000 * 1000;
+    double pause_p = 0.0;     // per decision point: the thread there is descheduled for up to pause_max_ns
+    i64 pause_max_ns = 5 * 1000 * 1000;
+    unsigned hot_buckets = 0; // bit mask over 16 hash buckets of site names: sites in these buckets are "hot" in this run
+    std::vector<std::string> hot_sites; // sites named by the scenario as hot in this run
+    double hot_pause_p = 0.0; // probability of a pause at a hot site
+    u64 max_pauses = 64;      // per run
     double start_delay_p = 0.0; // per created thread: probability that it starts late
     i64 start_delay_max_ns = 2 * 1000 * 1000;
     std::vector<int> guided;  // if non-empty: replay these choices at multi-choice points (-1: default rule), then fall back to policy
